@@ -3,11 +3,42 @@
 package h22
 
 import (
+	"crypto/tls"
+
 	"go.nanomsg.org/mangos/v3"
 	_ "go.nanomsg.org/mangos/v3/transport/inproc"
+	_ "go.nanomsg.org/mangos/v3/transport/ipc"
+	_ "go.nanomsg.org/mangos/v3/transport/tcp"
+	_ "go.nanomsg.org/mangos/v3/transport/tlstcp"
+	"go.nanomsg.org/mangos/v3/zzverif/vnet"
 	"go.nanomsg.org/mangos/v3/zzverif/verif"
 	"go.nanomsg.org/mangos/v3/zzverif/vp"
 )
+
+// transport under the two sockets (parameter "tran"): inproc is the real in-process transport; tcp, ipc and
+// tls+tcp are the real stream transports on the harness network with dialer and listener linked to each other
+var trans = []string{"inproc", "tcp", "ipc", "tls+tcp"}
+
+var e2eTLS = &tls.Config{Certificates: []tls.Certificate{{}}}
+
+var netInstalled bool
+
+func e2eAddr(name string) (string, map[string]interface{}) {
+	t := trans[verif.Param("tran", 0)]
+	if t != "inproc" && !netInstalled {
+		vnet.Install().AutoLink = true
+		netInstalled = true
+	}
+	switch t {
+	case "tcp":
+		return "tcp://127.0.0.1:70" + name, nil
+	case "ipc":
+		return "ipc:///tmp/verif-e2e-" + name, nil
+	case "tls+tcp":
+		return "tls+tcp://127.0.0.1:71" + name, map[string]interface{}{mangos.OptionTLSConfig: e2eTLS}
+	}
+	return "inproc://" + name, nil
+}
 
 type pairing struct{ tx, rx string }
 
@@ -38,8 +69,10 @@ func VH22a_patterns() {
 	if pr.rx == "sub" {
 		rx.SetOption(mangos.OptionSubscribe, []byte{})
 	}
-	verif.Assert(rx.Listen("inproc://e2e") == nil, lab+"/listen")
-	verif.Assert(tx.Dial("inproc://e2e") == nil, lab+"/dial")
+	addr, opts := e2eAddr("01")
+	lab = "C01/" + trans[verif.Param("tran", 0)] + "/" + pr.tx + "-" + pr.rx
+	verif.Assert(rx.ListenOptions(addr, opts) == nil, lab+"/listen")
+	verif.Assert(tx.DialOptions(addr, opts) == nil, lab+"/dial")
 	verif.Quiesce()
 	n := verif.Choice("len", B+1)
 	body := verif.Bytes("body", n)
@@ -77,19 +110,24 @@ func VH22a_patterns() {
 func VH22b_device() {
 	lab := "C09/device"
 	n := verif.Choice("devices", verif.Param("N", 2)+1)
+	lab = "C09/device/" + trans[verif.Param("tran", 0)]
+	hop := func(i int) (string, map[string]interface{}) { return e2eAddr("9" + string(rune(0x30+i))) }
 	rep := vp.New("rep")
-	verif.Assert(rep.Listen("inproc://hop0") == nil, lab+"/rep-listen")
+	a0, o0 := hop(0)
+	verif.Assert(rep.ListenOptions(a0, o0) == nil, lab+"/rep-listen")
 	var devs []mangos.Socket
 	for i := 0; i < n; i++ {
 		front, back := vp.New("xrep"), vp.New("xreq")
-		verif.Assert(back.Dial("inproc://hop"+string(rune('0'+i))) == nil, lab+"/device-dial")
-		verif.Assert(front.Listen("inproc://hop"+string(rune('1'+i))) == nil, lab+"/device-listen")
+		ab, ob := hop(i)
+		af, of := hop(i + 1)
+		verif.Assert(back.DialOptions(ab, ob) == nil, lab+"/device-dial")
+		verif.Assert(front.ListenOptions(af, of) == nil, lab+"/device-listen")
 		verif.Assert(mangos.Device(front, back) == nil, lab+"/device")
 		devs = append(devs, front, back)
 	}
-	entry := "inproc://hop" + string(rune('0'+n))
+	entry, eo := hop(n)
 	c1, c2 := vp.New("req"), vp.New("req")
-	verif.Assert(c1.Dial(entry) == nil && c2.Dial(entry) == nil, lab+"/clients-dial")
+	verif.Assert(c1.DialOptions(entry, eo) == nil && c2.DialOptions(entry, eo) == nil, lab+"/clients-dial")
 	verif.Quiesce()
 	q1 := []byte{'1', verif.Byte("q1")}
 	q2 := []byte{'2', verif.Byte("q2")}
